@@ -70,7 +70,7 @@ def check_guards(ctx, rule, prog):
                 for a, s in edges:
                     reach = f.reachable(s)
                     bad = [b for b, _ in calls if b in reach]
-                    errs = [bb for bb, e in A.return_exprs(f, r) if bb in reach and A.peel(e)[0] == "agg" and A.peel(e)[2] == "Err"]
+                    errs = [bb for bb in A.error_exits(f, r) if bb in reach]
                     ctx.check(not bad and bool(errs), rule, "%s:%s-returns-err" % (A.short(root), gname),
                               "the guard's true edge leads only to `return Err(..)`",
                               "after %s() is true the function still reaches re-entrant calls" % gname, f.loc(a))
